@@ -320,7 +320,7 @@ def _nested_seeds(ctx: Ctx) -> None:
 
 
 # ------------------------------------------------------------------ D12.3
-def _memo(ctx: Ctx) -> None:
+def _memo(ctx: Ctx, rid: str = "D12.3") -> None:
     """The seed memo of Hardness.evaluate, path by path (locals inlined):
     a path either recomputes the seeds from the instance name (and the fixed
     number of runs) and stores seeds and name together, or it re-uses the
@@ -433,7 +433,7 @@ def _memo(ctx: Ctx) -> None:
                     if any(isinstance(n_, ast.Name) and n_.id == xpar
                            for n_ in ast.walk(v_)):
                         kept_bad.append((st_, t_.attr))
-    ctx.ob("D12.3", fi, kept_bad[0][0] if kept_bad else fi.node,
+    ctx.ob(rid, fi, kept_bad[0][0] if kept_bad else fi.node,
            not kept_bad,
            "what Hardness.evaluate keeps between two evaluations depends on "
            "the evaluated instance only through its name" if not kept_bad
@@ -444,13 +444,21 @@ def _memo(ctx: Ctx) -> None:
                "what was evaluated before it" for _, a_ in kept_bad[:2]),
            construct="state kept between evaluations")
     ok = key_ok and seed_ok and store_ok and n_store >= 1 and n_reuse >= 1
-    ctx.ob("D12.3", fi, node, ok,
+    ctx.ob(rid, fi, node, ok,
            "the seed memo is keyed by the instance name, the seeds are "
            "derived from the instance name (and the fixed number of runs) "
            "only, and key and value are stored together" if ok else
-           f"seed memo inconsistent: key_ok={key_ok} seeds_from_name="
-           f"{seed_ok} stored_together={store_ok} (paths: {n_store} "
-           f"recompute, {n_reuse} re-use)",
+           "seed memo inconsistent (" + "; ".join(
+               ([] if key_ok else ["stored seeds are re-used on a path "
+                                   "without the test `stored name == name`"])
+               + ([] if seed_ok else [
+                   "on some path the seeds that the runs use are not the "
+                   "ones derived from (or stored for) this instance name"])
+               + ([] if store_ok else ["seeds and name are not stored "
+                                       "together on every recomputing path"])
+               + ([] if n_store and n_reuse else ["memo not recognised"]))
+           + f"; paths: {n_store} recompute, {n_reuse} re-use): repeated "
+           "evaluations of the same instance may use different seeds",
            construct="hardness seed memo")
 
 
@@ -636,6 +644,12 @@ def _record_assembly(ctx: Ctx) -> None:
             problems.append("no PackingResult is created")
         else:
             kw = {k.arg: src(k.value) for k in mk.keywords}
+            # positional arguments are bound by the constructor's signature
+            pinit = repo.cls(mod.name, "PackingResult").methods.get(
+                "__init__")
+            for pn, a_ in zip(pinit.params[1:] if pinit is not None else [],
+                              mk.args):
+                kw.setdefault(pn, src(a_))
             want = {"end_result": p[0], "n_items": f"{inst}.n_items",
                     "n_different_items": f"{inst}.n_different_items",
                     "bin_width": f"{inst}.bin_width",
